@@ -256,11 +256,14 @@ def validate_chunk(module, cfg, chunk, workers=1, timeout=3600, env=None, dfs=Fa
 
 
 def validate_trace(module, cfg, trace, nchunks=NCPU, start_event='Call', timeout=3600, env=None, dfs=False,
-                   recheck=True):
+                   recheck=True, files=None):
     """Validate an ndjson trace against a trace specification, in parallel chunks.  Returns
     dict(rejects=[{line, call_line, clauses, event}], states, transitions, events).  A rejection is
     only believed if a second TLC run over the same chunk repeats it."""
-    chunks, nlines = split_trace(trace, nchunks, start_event)
+    if files is not None:
+        chunks, nlines = [(f, 0) for f in files], sum(sum(1 for _ in open(f)) for f in files)
+    else:
+        chunks, nlines = split_trace(trace, nchunks, start_event)
     res = {'rejects': [], 'states': 0, 'transitions': 0, 'events': nlines, 'chunks': len(chunks)}
     if not chunks:
         return res
